@@ -103,10 +103,32 @@ def _tie_scenario(draw):
     return {"net": {"names": names, "regs": nj["regs"], "tables": nj["tables"]}, "config": {}, "via": "api", "steps": pre + [ctl]}
 
 
+def _sign_twin(sc, a, b):
+    """copy of a scenario whose network has regulator (a mod k) of variable (b mod n) negated in the truth table"""
+    nj = sc["net"]
+    n = len(nj["names"])
+    tabs = [None if t is None else list(t) for t in nj["tables"]]
+    for off in range(n):
+        i = (b + off) % n
+        r = nj["regs"][i]
+        if tabs[i] is None or not r:
+            continue
+        pos = a % len(r)
+        k = len(r)
+        t = tabs[i]
+        tabs[i] = [t[idx ^ (1 << (k - 1 - pos))] for idx in range(1 << k)]
+        break
+    return {**sc, "net": {"names": nj["names"], "regs": nj["regs"], "tables": tabs}}
+
+
 @st.composite
 def _case(draw, tier):
     m = 6
-    scs = [draw(_scenario(7)) for _ in range(m - 1)] + [draw(_tie_scenario())]
+    scs = [draw(_scenario(7)) for _ in range(m - 2)] + [draw(_tie_scenario())]
+    # a "sign twin": same names, same wiring and same history as another scenario of the batch, but one regulator's
+    # polarity flipped in every update function (results must not leak between networks that look alike)
+    base = scs[draw(st.integers(0, m - 3))]
+    scs.append(_sign_twin(base, draw(st.integers(0, 50)), draw(st.integers(0, 50))))
     k = 4 if tier == "quick" else 16
     orders = []
     for _ in range(k):
